@@ -42,13 +42,13 @@ RenameInvariant ==
 
 \* ---- geometry ----
 Bigger == [a \in 1..Len(Shape) |-> Shape[a] + 1]
-Offsets == [1..Len(Shape) -> {0, 1}]
+PadOffsets == [1..Len(Shape) -> {0, 1}]
 Perms == {p \in [1..Len(Shape) -> 1..Len(Shape)] : \A a, b \in 1..Len(Shape) : p[a] = p[b] => a = b}
 GeomInvariant ==
     (l = 1 /\ Mode = "geom") =>
         \A c \in Cfgs : \A k \in Kinds :
             LET base == Summ(k, c[1], c[2], Shape, pred, ref) IN
-            /\ \A off \in Offsets :
+            /\ \A off \in PadOffsets :
                   Summ(k, c[1], c[2], Bigger, Pad(Shape, pred, Bigger, off), Pad(Shape, ref, Bigger, off)) = base
             /\ \A ax \in 1..Len(Shape) :
                   Summ(k, c[1], c[2], Shape, Flip(Shape, pred, ax), Flip(Shape, ref, ax)) = base
